@@ -220,7 +220,16 @@ func (set *TemplateSet) FromBytes(tpl []byte) (*Template, error) {
 
 // FromFile loads a template from a filename and returns a Template instance.
 func (set *TemplateSet) FromFile(filename string) (*Template, error) {
+	return set.fromFileReferredBy(filename, nil)
+}
+
+// fromFileReferredBy is FromFile for a template that another template (from) refers to.
+func (set *TemplateSet) fromFileReferredBy(filename string, from *Template) (*Template, error) {
 	atomic.StoreUint32(&set.firstTemplateCreated, 1)
+	depth := 0
+	if from != nil {
+		depth = from.depth + 1
+	}
 
 	_, _, fd, err := set.resolveTemplate(nil, filename)
 	if err != nil {
@@ -239,7 +248,7 @@ func (set *TemplateSet) FromFile(filename string) (*Template, error) {
 		}
 	}
 
-	return newTemplate(set, filename, false, buf)
+	return newTemplateAtDepth(set, filename, false, buf, depth)
 }
 
 // RenderTemplateString is a shortcut and renders a template string directly.
